@@ -97,7 +97,17 @@ impl Prop for C16 {
                         4 => {
                             // OP_RETURN followed by something that is not exactly one push
                             let mut s = vec![0x6a];
-                            match rng.below(4) {
+                            match rng.below(5) {
+                                4 => {
+                                    // a complete OP_RETURN <push> behind one extra opcode: the script does not
+                                    // start with OP_RETURN, so its type is not OP_RETURN and nothing is printed
+                                    let n = rng.usize(1, 40);
+                                    let inner = op_return(&text(rng, n));
+                                    s = one_opcode_prefix(rng, inner);
+                                    if s[0] == 0x6a {
+                                        s[0] = 0x00;
+                                    }
+                                }
                                 0 => {}
                                 1 => {
                                     s.extend(push(b"ab"));
